@@ -726,10 +726,10 @@ SequenceOfLabelsToDomainName(const uint8_t *buf, size_t buf_size, uint8_t *name,
 		label &= SEQ_LABEL_DATA_MASK;// now it contain len
 		cur_pos ++; // now it points to data
 
-		if ((cur_pos + label) > max_pos)
-			return (EBADMSG); /* Out of buf range. */
+		if (0 != label && (cur_pos + label) >= max_pos)
+			return (EBADMSG); /* Out of buf range: label and next label byte must be inside. */
 		if (0 == label) { // null label = end of name, ALL DONE!!!
-			if (0 != (cur_pos - buf)) { // clear last dot
+			if (1 != (cur_pos - buf)) { // clear last dot
 				name --;
 			}
 			(*name) = 0; // set zero at the end
